@@ -208,7 +208,7 @@ func freeUDPPort() int {
 	defer portMu.Unlock()
 	for i := 0; i < 20000; i++ {
 		nextPort++
-		if nextPort > 60000 {
+		if nextPort > 32000 { // stay below the kernel's ephemeral range (32768-60999)
 			nextPort = 21000
 		}
 		c, err := net.ListenUDP("udp4", &net.UDPAddr{IP: net.IPv4(127, 0, 0, 1), Port: nextPort})
@@ -249,7 +249,25 @@ func snExchange(conn *net.UDPConn, send []byte, repeat bool, done <-chan struct{
 	return refsn.Pkt{}, "deadline"
 }
 
+// runGateway retries when the gateway could not bind its port (somebody else took it between the harness's
+// test and the gateway's bind): that is the harness's business, not the tool's.
 func runGateway(c config, dir, tag string) map[int]string {
+	var out map[int]string
+	for try := 0; try < 4; try++ {
+		out = runGatewayOnce(c, dir, tag)
+		if !strings.Contains(out[1]+out[2], "address already in use") {
+			return out
+		}
+	}
+	for id, v := range out {
+		if strings.Contains(v, "address already in use") {
+			out[id] = "inconclusive: no free port"
+		}
+	}
+	return out
+}
+
+func runGatewayOnce(c config, dir, tag string) map[int]string {
 	out := map[int]string{}
 	fail := func(s string) map[int]string {
 		out[1], out[2] = s, s
